@@ -180,13 +180,18 @@ def reader_sequence(state, buf='packet', cls=None, recv='self'):
                 reads.append(Read('splice', None, '%s:%s' % sl, text, line))
                 continue
             order = _tiling(pending, sl[1])
-            if order is not None and (len(pending) > 1):
-                # several reads at increasing offsets consumed by one del: they tile [0:hi) without gap or overlap; the field order
-                # is the order of the offsets
+            if order and (len(pending) > 1 or order[0][1] != '0'):
+                # reads at increasing offsets consumed by one del: the field order is the order of the offsets; consumed octets no read
+                # covers are skipped (in front: a skip of their own; behind a read: that read is a skip-read)
                 idx = sorted(reads.index(r) for r, _ in pending)
-                for i, (r, rs) in zip(idx, order):
-                    r.width = lin_add(rs[1], rs[0] or '0', -1)
+                for i, (r, lo, end) in zip(idx, order):
+                    rs = [x[1] for x in pending if x[0] is r][0]
+                    r.width = lin_add(end, lo, -1)
+                    if lin_norm(rs[1]) != lin_norm(end) and r.kind == 'fixed':
+                        r.kind = 'fixed-skip'
                     reads[i] = r
+                if order[0][1] != '0':
+                    reads.insert(idx[0], Read('skip', None, order[0][1], text, line))
                 pending = []
                 continue
             for r, rs in pending:
@@ -234,18 +239,31 @@ def reader_sequence(state, buf='packet', cls=None, recv='self'):
 
 
 def _tiling(pending, hi):
-    """Order in which the pending reads [(Read, (lo, hi))] cover [0:hi) exactly, or None."""
+    """How the pending reads [(Read, (lo, hi))] are covered by one `del buf[:hi]`: [(Read, lo, end of the octets consumed with it)]
+    in stream order, or None when they overlap / reach beyond hi.  With integer offsets, octets between two reads that are consumed
+    but not read count as skipped with the read before them (as in `x = buf[:1]; del buf[:4]`); symbolic offsets must chain exactly."""
+    ints = _int(hi) is not None and all(_int(p[1][0] or '0') is not None and _int(p[1][1]) is not None for p in pending)
+    if ints:
+        ps = sorted(pending, key=lambda p: _int(p[1][0] or '0'))
+        out, cur = [], 0
+        for i, (r, (lo, h)) in enumerate(ps):
+            lo_i, h_i = _int(lo or '0'), _int(h)
+            nxt = _int(ps[i + 1][1][0] or '0') if i + 1 < len(ps) else _int(hi)
+            if lo_i < cur or h_i <= lo_i or nxt < h_i:
+                return None
+            out.append((r, str(lo_i), str(nxt)))
+            cur = nxt
+        return out
     left = list(pending)
     cur, out = '0', []
     while left:
         nxt = [p for p in left if lin_norm(p[1][0] or '0') == cur]
-        if len(nxt) != 1:
+        if len(nxt) != 1 or nxt[0][1][1] == '':
             return None
         left.remove(nxt[0])
-        out.append(nxt[0])
-        cur = lin_norm(nxt[0][1][1]) if nxt[0][1][1] != '' else None
-        if cur is None:
-            return None
+        end = lin_norm(nxt[0][1][1])
+        out.append((nxt[0][0], cur, end))
+        cur = end
     return out if cur == lin_norm(hi) else None
 
 
